@@ -113,8 +113,11 @@ def check(run):
         run.finish()
 
     # (1) design: exhaustive
-    run.tlc_mc("MC_Sandbox.tla", "MC_Sandbox.cfg" if quick else "MC_Sandbox_thorough.cfg", timeout=900)
-    run.tlc_mc("MC_Sandbox.tla", "MC_Sandbox_utxo.cfg", timeout=600)
+    if os.environ.get("VERIF_C10_SKIP_MC"):      # self-test aid only (mutant loops): the design check does not read /repo
+        run.assumptions.append("MODEL CHECK SKIPPED (VERIF_C10_SKIP_MC)")
+    else:
+        run.tlc_mc("MC_Sandbox.tla", "MC_Sandbox.cfg" if quick else "MC_Sandbox_thorough.cfg", timeout=900)
+        run.tlc_mc("MC_Sandbox.tla", "MC_Sandbox_utxo.cfg", timeout=600)
 
     # (2)-(4) conformance
     core = {"EdgeBounds": "FALSE", "Limits": "{1, 2, 9}"}
